@@ -1,3 +1,11 @@
+"""C13: indexing and slicing follow Python's sequence model for all indices.
+
+Besides the correspondence run, `(*Slice).GetIndices` of py/slice.go is REGENERATED into Lean by extract/goint (slice mode) on
+every run (lean/GPy/C13/Generated/SliceCore.lean); lean/GPy/C13/GenProofs.lean (gen_getIndices) and the `generated_*` theorems of
+Props.lean are re-proved against it, so the headline theorem getindices_spec is about the code of the working tree."""
+import os
+import common
+
 CONFIG = {
     "rule": "cases = (operation, sequence operands, key) executed through py.GetItem/SetItem/DelItem/Add/IAdd/Mul/Len/SequenceContains/Eq..Ge/Iter+Next on the real packages; "
             "exhaustive part: {list, tuple, ascii str, str with 1-4 byte characters, range step 1, range negative step} x every length 0..4 (thorough 0..6) x "
@@ -16,6 +24,9 @@ CONFIG = {
             "V = result | every operand afterwards (so operand corruption and result/operand storage sharing - the harness scribbles over list results - are part of V). "
             "non-trivial = the spec raises, or the key is a slice, a negative index, or the operation is anything but len / in-range non-negative indexing; distinct = distinct input lines",
     "trusted_base": [
+        "extract/goint slice mode (Go -> Lean translator, go/ast; rules as listed in checks/c07.py: int arithmetic wraps, / truncates, named results + bare return, "
+        "`x, err = f(); if err != nil { return }` = error propagation, fall-through ifs as values): lean/GPy/C13/Generated/SliceCore.lean is its output for py/slice.go's GetIndices of the working tree; "
+        "sliceIndex (type switch on the operand) stays hand-modelled",
         "Lean 4.33.0 kernel; axioms allowed: propext, Classical.choice, Quot.sound (audited per theorem on every run)",
         "lean/GPy/C13/Spec.lean: my transcription of Python's sequence model (slice bound adjustment, the progression start+k*step before stop, index normalisation, list assignment/deletion, range as its item list, lexicographic order)",
         "lean/GPy/C13/Model.lean: hand transliteration of py/slice.go, py/internal.go (Index*), py/list.go, py/tuple.go, py/range.go, py/string.go (code-point granularity), py/bytes.go, py/sequence.go and the dispatch in py/arithmetic.go; tied to /repo by the correspondence run only",
@@ -41,3 +52,19 @@ CONFIG = {
     "dist_tokens": 1,
     "group": lambda r: " ".join([r["input"].split(" ")[0], r["input"].split(" ")[1][:1], r["impl"].split("|")[0][:12]]),
 }
+
+
+def pre(run):
+    """regenerate lean/GPy/C13/Generated/SliceCore.lean from py/slice.go of the working tree (extract/goint slice)"""
+    out_lean = os.path.join(common.LEAN, "GPy", "C13", "Generated", "SliceCore.lean")
+    before = open(out_lean).read() if os.path.exists(out_lean) else ""
+    rc, out = common.sh(["go", "run", ".", "slice", common.REPO, out_lean], cwd=os.path.join(common.ROOT, "extract", "goint"),
+                        env=common.GOENV, timeout=600)
+    after = open(out_lean).read() if os.path.exists(out_lean) else ""
+    run.cov["translator"] = {"cmd": "cd extract/goint && go run . slice <repo> lean/GPy/C13/Generated/SliceCore.lean",
+                             "exit": rc, "output": out.strip()[-300:], "functions_translated": 1 if rc == 0 else 0,
+                             "generated_file_differs_from_committed_baseline": after != before and before != "",
+                             "generated_sha1": __import__("hashlib").sha1(after.encode()).hexdigest()}
+    if rc != 0:
+        run.violation({"kind": "translator", "broken": "extract/goint (slice mode) cannot translate py/slice.go GetIndices of the working tree any more: "
+                       "the `generated_*` theorems are no longer about the current code", "output": out[-2000:]}, nofail=True)
